@@ -23,6 +23,11 @@ func calleeKey(c *ssa.CallCommon) string {
 		return "builtin." + v.Name()
 	case *ssa.MakeClosure:
 		return shortFuncName(v.Fn.(*ssa.Function))
+	case *ssa.UnOp:
+		// call through a package-level function variable (e.g. webhook.Patched = admission.Patched)
+		if g, ok := v.X.(*ssa.Global); ok && g.Pkg != nil {
+			return g.Pkg.Pkg.Name() + "." + g.Name()
+		}
 	}
 	return "dynamic"
 }
@@ -62,14 +67,18 @@ func (x *FnExec) call(fr *frame, n *node, in ssa.Instruction, c *ssa.CallCommon,
 	// effect guards on calls
 	x.callGuards(fr, n, in, c, key, args, reach)
 	calleeRef := ""
-	if key == "dynamic" {
-		calleeRef = x.scalar(x.value(fr, env, c.Value))
+	if _, isFn := c.Value.(*ssa.Function); !isFn && !c.IsInvoke() {
+		if _, isB := c.Value.(*ssa.Builtin); !isB {
+			if _, isMC := c.Value.(*ssa.MakeClosure); !isMC {
+				calleeRef = x.scalar(x.value(fr, env, c.Value))
+			}
+		}
 	}
 	gargs := args
 	if !c.IsInvoke() && c.Signature().Recv() != nil && len(args) > 0 {
 		gargs = args[1:] // arg0.. are the declared parameters, as in guards
 	}
-	x.ghostUpdates(fr, n, key, ord, "before", gargs, Val{}, reach, calleeRef)
+	x.ghostUpdates(fr, n, key, ord, "before", gargs, Val{}, reach, calleeRef, in)
 
 	var res Val
 	var err error
@@ -110,7 +119,7 @@ func (x *FnExec) call(fr *frame, n *node, in ssa.Instruction, c *ssa.CallCommon,
 	if err != nil {
 		return Val{}, err
 	}
-	x.ghostUpdates(fr, n, key, ord, "after", gargs, res, reach, calleeRef)
+	x.ghostUpdates(fr, n, key, ord, "after", gargs, res, reach, calleeRef, in)
 	return res, nil
 }
 
@@ -206,13 +215,23 @@ func (x *FnExec) applySpec(fr *frame, n *node, in ssa.Instruction, spec *FuncSpe
 	// bind parameter names
 	bindNames := func() {
 		i := 0
-		if callee != nil {
+		if callee != nil && len(callee.Params) == 0 && len(args) > 0 {
+			x.eng.ensureBuilt(callee)
+		}
+		if callee != nil && len(callee.Params) > 0 {
 			for j, p := range callee.Params {
 				if j < len(args) {
 					extra[p.Name()] = x.deAddr(args[j])
 				}
 			}
 			return
+		}
+		if callee != nil && sig.Recv() != nil && len(args) > 0 {
+			nm := sig.Recv().Name()
+			if nm != "" && nm != "_" {
+				extra[nm] = x.deAddr(args[0])
+			}
+			i = 1
 		}
 		if invoke {
 			extra["recv"] = args[0]
@@ -292,7 +311,10 @@ func (x *FnExec) applySpec(fr *frame, n *node, in ssa.Instruction, spec *FuncSpe
 		}
 	}
 	post := &evalCtx{env: n.env, st: st, old: pre, extra: extra, noLocals: true, pkg: pkg, block: n.b}
-	for _, e := range spec.Ensures {
+	for _, e := range spec.AssumedEnsures {
+		x.trusted["assumed postcondition of "+spec.Key+": "+e.Src] = true
+	}
+	for _, e := range append(append([]*Clause{}, spec.Ensures...), spec.AssumedEnsures...) {
 		g, err := x.evalBool(fr, e.Expr, post)
 		if err != nil {
 			x.errf("%s: ensures of %s: %v", funcKey(fr.fn), spec.Key, err)
@@ -322,6 +344,9 @@ func (x *FnExec) callGuards(fr *frame, n *node, in ssa.Instruction, c *ssa.CallC
 		if g.Kind != "call" || !guardMatchesCallee(g.Target, key) {
 			continue
 		}
+		if g.In != "" && !strings.HasSuffix(funcKey(x.top), "."+g.In) && !strings.HasSuffix(funcKey(fr.fn), "."+g.In) {
+			continue
+		}
 		extra := map[string]Val{}
 		sig := c.Signature()
 		off := 0
@@ -339,7 +364,7 @@ func (x *FnExec) callGuards(fr *frame, n *node, in ssa.Instruction, c *ssa.CallC
 				extra["arg_"+nm] = x.deAddr(args[off+j])
 			}
 		}
-		ctx := &evalCtx{env: n.env, st: n.st, old: fr.oldState, extra: extra, block: n.b}
+		ctx := &evalCtx{env: n.env, st: n.st, old: fr.oldState, extra: extra, block: n.b, at: in}
 		goal, err := x.evalBool(fr, g.Expr, ctx)
 		if err != nil {
 			x.errf("guard call %s in %s: %v", g.Target, funcKey(fr.fn), err)
@@ -358,7 +383,7 @@ func guardMatchesCallee(target, key string) bool {
 	return strings.HasSuffix(key, "."+target)
 }
 
-func (x *FnExec) ghostUpdates(fr *frame, n *node, key string, ord int, when string, args []Val, res Val, reach string, calleeRef string) {
+func (x *FnExec) ghostUpdates(fr *frame, n *node, key string, ord int, when string, args []Val, res Val, reach string, calleeRef string, atInstr ssa.Instruction) {
 	// ghost updates belong to the function under verification and also apply inside closures executed in place
 	if x.topSpec == nil {
 		return
@@ -388,7 +413,7 @@ func (x *FnExec) ghostUpdates(fr *frame, n *node, key string, ord int, when stri
 			extra["result"] = res
 			extra["result0"] = res
 		}
-		ctx := &evalCtx{env: n.env, st: n.st, old: fr.oldState, extra: extra, block: n.b}
+		ctx := &evalCtx{env: n.env, st: n.st, old: fr.oldState, extra: extra, block: n.b, at: atInstr}
 		if fr.fn.Pkg != nil {
 			ctx.pkg = fr.fn.Pkg.Pkg
 		}
